@@ -46,7 +46,8 @@ def run(ctx):
                               "c14_totp_spacing_concurrent", "c14_split_gate_refuted", "c14_config", "c14_old_clamp_refuted",
                               "c14_totp_spacing", "c14_lockout", "c14_lockout_escalates", "c14_fail_count",
                               "c14_totp_per_user", "c14_old_lockout_refuted",
-                              "c14_cleanup_invisible", "c14_streak", "c14_lockout_history", "c14_cleanup_per_user",
+                              "c14_cleanup_invisible", "c14_streak", "c14_lockout_history", "c14_lockout_history_plain", "c14_cleanup_per_user",
+                              "c14_read_source_irrelevant", "c14_read_source_any", "c14_source_is_throttle", "c14_cached_no_write", "c14_cached_lenient_refuted",
                               "c14_purging_cleanup_refuted", "c14_count_bounded", "c14_uint32_exact"])],
         harness=("TestVerif_C14", ["kmd/common.go", "kmd/creds.go", "kmd/consts.go", "kmd/c14.go"] + hookfiles),
         obl=("Obl_C14.v", ["c14_totp_consts", "c14_two_seconds", "c14_uint32_consts"]),
